@@ -29,7 +29,7 @@ ABSENT = object()
 REPLS = ["default", "function", "bound", "callable_obj", "explicit_mock", "new_callable", "noncallable", "classmethod_fn", "staticmethod_fn", "spec_set", "new_callable_fn", "new_callable_bound", "new_callable_obj"]
 ACTS = ["with", "decorator", "classdeco", "startstop"]
 EXITS = ["normal", "exception", "stopall"]
-COMPS = ["single", "nested", "nested_same_replacement", "sequential", "same_patcher_again"]
+COMPS = ["single", "nested", "nested_same_replacement", "sequential", "same_patcher_again", "nested_stopall"]
 ENTRIES = ["patch", "patch.object"]
 
 
@@ -375,6 +375,11 @@ def run_cell(target, repl, act, exit_path, comp, entry):
                     rec2 = rec if same else Recorder()
                     use(mk(rec2, same), rec2, 1)
                     nconv[0] += check_inside(get, entered, rec, repl, target, viol)
+                if comp == "nested_stopall" and depth == 0:
+                    # a second patch of the same target is started inside the first; ONE stopall() ends both
+                    rec2 = Recorder()
+                    entered2 = mk(rec2).start()
+                    nconv[0] += check_inside(get, entered2, rec2, repl, target, viol)
                 if exit_path == "exception":
                     raise UserErr(("leave",))
             except UserErr:
@@ -430,7 +435,9 @@ def cells():
                     for comp in COMPS:
                         if comp == "nested_same_replacement" and r in ("default", "new_callable", "spec_set", "new_callable_fn", "new_callable_bound", "new_callable_obj"):
                             continue  # those create a fresh mock per patch; nothing to share
-                        if r == "spec_set" and comp in ("nested",):
+                        if r == "spec_set" and comp in ("nested", "nested_stopall"):
+                            continue
+                        if comp == "nested_stopall" and not (a == "startstop" and e == "stopall"):
                             continue
                         if r in ("classmethod_fn", "staticmethod_fn") and t in ("fn", "const", "inst_meth"):
                             continue  # descriptors are only meaningful as class attributes
